@@ -208,7 +208,7 @@ def main(argv=None):
     for v in bres.get('violations', []):
       hit = None
       for k in known:
-        if k.get('key') and k['key'] == v.get('key'):
+        if v.get('key') is not None and v.get('key') in (k.get('keys') or [k.get('key')]):
           hit = k
       if hit is not None:
         known_hits.setdefault(hit['id'], [hit, 0])[1] += 1
@@ -221,7 +221,7 @@ def main(argv=None):
   for hit, cnt in known_hits.values():
     print(f"KNOWN-FINDING: property={prop} {hit['what']} ({cnt} enumerated cases)")
   for k in known:
-    if k['id'] not in known_hits and bres is not None and k.get('key'):
+    if k['id'] not in known_hits and bres is not None:
       print(f"NOTE: known finding {k['id']} was not reproduced by this run (stale entry?)")
   shown = 0
   for what, payload, suffix in violations:
